@@ -2268,8 +2268,8 @@ generate_opcodes! {
     Reserved57 => Reserved,
     /// Reserved [`Opcode`].
     Reserved58 => Reserved,
-    /// Reserved [`Opcode`].
-    Reserved59 => Reserved,
+    /// Discards the binding locator at the top of the `bindings_stack` without assigning to it.
+    PopLocator,
     /// Declare `var` type variable during eval declaration instantiation.
     ///
     /// - Operands:
